@@ -21,8 +21,10 @@ RULE = (
 TRUSTED = [
     "models: lean/SRVerif/Model/{Rec,LabelDP,Solvers}.lean; specification: lean/SRVerif/Spec/Opt.lean",
     "species are modelled as root paths; that LowestCommonAncestor computes the path operations is C17",
-    "the model stores decoded solutions per table cell instead of child-assignment tags",
-]
+    "the label-DP model stores decoded solutions per table cell; the code-structured model (tables of C16 entries "
+    "with child-assignment tags, two helper functions, aggregates, decoder) is proved to return the same solutions "
+    "(C01_thlCode_refines) and is tied to the real table entry by entry (checks/c01_code.py)",
+] + c01_code.TRUSTED
 ASSUMPTIONS = [
     "cost vectors inside spe <= dup + 2*floss (F-COHERENCE is a recorded finding outside it)",
     "non-negative integer unit costs; only the transfer cost may be infinite",
